@@ -131,7 +131,7 @@ func NewRC2(key []byte, t1 int) *RC2 {
 	var L [128]byte
 	copy(L[:], key)
 	T8 := (t1 + 7) / 8
-	TM := byte(255 % (1 << uint(8+t1-8*T8)))
+	TM := byte(255 % (int(1) << uint(8+t1-8*T8)))
 	for i := T; i <= 127; i++ {
 		L[i] = rc2Pitable[byte(L[i-1]+L[i-T])]
 	}
